@@ -668,15 +668,12 @@ Definition wc_join : cfg := Cfg [106] ad2 [ad1] 300 100000.
 Definition wc_faults : sched := [(1000, SStart wc_seed []); (1010, SStart wc_join [(ad1, true)])]%Z.
 Definition wc := scenario wc_faults 40 1050 50.
 
-(** (b) failure detection off; seed s, members a and x; x crashes and is forced down at s; then j joins through a *)
+(** (b) failure detection off; seeds s and a, member x; x crashes and is forced down at s *)
 Definition wb_s : cfg := Cfg [115] ad1 [ad1; ad2] 0 0.
 Definition wb_a : cfg := Cfg [97] ad2 [ad1; ad2] 0 0.
 Definition wb_x : cfg := Cfg [120] ad3 [ad1] 0 0.
-Definition wb_j : cfg := Cfg [106] ad4 [ad2] 0 0.
 Definition wb_prefix : sched :=
   [(1000, SStart wb_s []); (1010, SStart wb_a []); (1020, SStart wb_x [(ad1, true)])]%Z.
-(** after the prefix: 3 canonical rounds (convergence), then the crash, the force-down, delivery of its broadcast,
-    the join of j through a, and 30 more canonical rounds *)
 
 (** (d) failure detection off: j (the smaller address) joins the seed s, both converge, j leaves *)
 Definition wd_s : cfg := Cfg [115] ad2 [ad2] 0 0.
@@ -687,4 +684,142 @@ Definition wd_prefix : sched := [(1000, SStart wd_s []); (1010, SStart wd_j [(ad
     same NodeID and joins through s2 *)
 Definition we_s1 : cfg := Cfg [115; 49] ad1 [ad1; ad2] 0 0.
 Definition we_s2 : cfg := Cfg [115; 50] ad2 [ad1; ad2] 0 0.
-Definition we_j : cfg := Cfg [106] ad3 [ad1; ad2] 0 0.
+Definition we_j1 : cfg := Cfg [106] ad3 [ad1] 0 0.   (* first life: configured with the seed s1 *)
+Definition we_j2 : cfg := Cfg [106] ad3 [ad2] 0 0.   (* after the restart: same NodeID, configured with the seed s2 *)
+
+(** * The fault-free phase as the property states it: fair rounds
+
+    A round is FAIR from world [w] when all its steps are fault-free ([fault_free]), enabled, carry
+    non-decreasing clock readings in [t, ...), every node of [w] whose gossip loop / failure-detection
+    loop / join retry is registered gets its tick in the round, and nothing is left in flight at its end
+    ("messages delivered"). *)
+
+Fixpoint clocks_from (t : Z) (r : sched) : bool :=
+  match r with
+  | [] => true
+  | (now, _) :: rest => (t <=? now)%Z && clocks_from now rest
+  end.
+
+Definition has_step (r : sched) (p : step -> bool) : bool := existsb (fun x => p (snd x)) r.
+
+Definition ticks_everyone (w : world) (r : sched) : bool :=
+  forallb (fun n =>
+      (negb (nd_gossip_on n) || has_step r (fun s => match s with SGossipTick a => bool_decide (a = nd_addr n) | _ => false end))
+   && (negb (nd_fd_on n) || has_step r (fun s => match s with SFdTick a _ => bool_decide (a = nd_addr n) | _ => false end))
+   && (negb (nd_retry_on n) || has_step r (fun s => match s with SRetry a _ => bool_decide (a = nd_addr n) | _ => false end)))
+    (map snd (map_to_list (w_nodes w))).
+
+(** run the round; [None] unless it is fair from [w] at clock >= [t] *)
+Definition fair_round (w : world) (t : Z) (r : sched) : option (world * evlog) :=
+  if forallb (fun x => fault_free (snd x)) r && clocks_from t r && ticks_everyone w r then
+    match run w r with
+    | Some (w', l) => match w_net w' with [] => Some (w', l) | _ :: _ => None end
+    | None => None
+    end
+  else None.
+
+(** consecutive fair rounds, round i starting at clock >= t + i*d: the final world and the per-round logs *)
+Fixpoint fair_rounds (w : world) (t d : Z) (rounds : list sched) : option (world * list evlog) :=
+  match rounds with
+  | [] => Some (w, [])
+  | r :: rest =>
+      match fair_round w t r with
+      | None => None
+      | Some (w1, l1) => match fair_rounds w1 (t + d)%Z d rest with
+                         | None => None
+                         | Some (w2, ls) => Some (w2, l1 :: ls)
+                         end
+      end
+  end.
+
+(** ** The unconditional property, in full: whatever happened before (any schedule [faults] of starts, joins,
+    losses, partitions = dropped packets and failed Asks, crashes, restarts, leaves), after [L] fair rounds
+    of length [d] every running node lists exactly the running nodes, all compute the same leader, and the
+    last round announces no membership / view / leader change. *)
+Definition C18_unconditional (L : nat) (d : Z) : Prop :=
+  forall faults t rounds w1 l1 w2 logs,
+    run empty_world faults = Some (w1, l1) ->
+    fair_rounds w1 t d rounds = Some (w2, logs) ->
+    (L <= length rounds)%nat ->
+    converged w2 /\ (forall lg, last logs = Some lg -> quiet lg = true).
+
+(** ** Scenario combinator for the witnesses: explicit steps and canonical rounds, in any sequence *)
+Inductive phase := PSteps (s : sched) | PRounds (n : nat) (t0 d : Z).
+
+Fixpoint play (w : world) (ps : list phase) : option (world * list (sched * evlog)) :=
+  match ps with
+  | [] => Some (w, [])
+  | PSteps s :: r =>
+      match run w s with
+      | None => None
+      | Some (w1, l1) => match play w1 r with
+                         | None => None
+                         | Some (w2, rs) => Some (w2, (s, l1) :: rs)
+                         end
+      end
+  | PRounds n t0 d :: r =>
+      match auto_rounds n t0 d w with
+      | None => None
+      | Some (w1, rs1) => match play w1 r with
+                          | None => None
+                          | Some (w2, rs2) => Some (w2, rs1 ++ rs2)
+                          end
+      end
+  end.
+
+(** the schedules of the witnesses, as data: everything before the last [k] entries, and the last [k] entries *)
+Definition sched_of (rs : list (sched * evlog)) : sched := concat (map fst rs).
+Definition split_last {A} (k : nat) (l : list A) : list A * list A :=
+  (firstn (length l - k) l, skipn (length l - k) l).
+
+(** (a) 40 canonical rounds of two healthy nodes *)
+Definition wa_play : list phase := [PSteps wa_faults; PRounds 40 1050 50].
+(** (c) the same with SuspectConfirmDuration 100000 *)
+Definition wc_play : list phase := [PSteps wc_faults; PRounds 40 1050 50].
+(** (b) s, a, x converge (failure detection off); x crashes; ForceMemberDown(x) at s; 30 rounds *)
+Definition wb_play : list phase :=
+  [PSteps wb_prefix; PRounds 3 1050 50;
+   PSteps [(1200%Z, SCrash ad3); (1210%Z, SForceDown ad1 [120])]; PRounds 30 1250 50].
+(** (d) s and j converge (failure detection off); j leaves; 30 rounds *)
+Definition wd_play : list phase :=
+  [PSteps wd_prefix; PRounds 3 1050 50; PSteps [(1200, SLeave ad1)]%Z; PRounds 30 1250 50].
+(** (e) j joins through s1 while every packet to and from s2 is lost; j crashes; j restarts under the same NodeID,
+    now configured with the seed s2, and joins through it; then 30 rounds *)
+Definition we_play : list phase :=
+  [PSteps [(1000%Z, SStart we_s1 []); (1005%Z, SStart we_s2 []);
+           (1010%Z, SDrop 0); (1010%Z, SDrop 0);                  (* the two bootstrap broadcasts *)
+           (1020%Z, SStart we_j1 [(ad1, true)])];
+   PSteps [(1030%Z, SDrop 0); (1030%Z, SDrop 0);                 (* s1 -> s2 and s1 -> j are lost *)
+           (1030%Z, SDeliver 0 (Some [106]));                     (* j -> s1 arrives: s1 holds j at (2,2) *)
+           (1030%Z, SDrop 0)];                                    (* what s1 then sends to s2 is lost *)
+   PSteps [(1040%Z, SCrash ad3); (1100%Z, SStart we_j2 [(ad2, true)])];
+   PRounds 30 1150 50].
+
+(** the schedule before the last [k] entries of a played scenario, and the schedules of its last [k] entries *)
+Definition faults_of (ps : list phase) (k : nat) : sched :=
+  match play empty_world ps with
+  | Some (_, rs) => sched_of (fst (split_last k rs))
+  | None => []
+  end.
+Definition rounds_of (ps : list phase) (k : nat) : list sched :=
+  match play empty_world ps with
+  | Some (_, rs) => map fst (snd (split_last k rs))
+  | None => []
+  end.
+
+(** ** Observations used in the refutation statements *)
+Definition nodes_of (w : world) : list node := map snd (map_to_list (w_nodes w)).
+Definition is_running (w : world) (a : addr) : bool := bool_decide (is_Some (w_nodes w !! a)).
+(** the log announces the removal of an address that is running in [w] *)
+Definition removal_of_running (w : world) (lg : evlog) : bool :=
+  existsb (fun p => match snd p with
+                    | EMembers _ _ removed => existsb (is_running w) removed
+                    | _ => false
+                    end) lg.
+Definition lists_id (n : node) (id : list N) : bool := bool_decide (is_Some (vw_members (nd_view n) !! id)).
+(** a fault phase made only of process starts whose Asks all go through: nothing is lost, nobody stops *)
+Definition only_clean_starts (f : sched) : bool :=
+  forallb (fun x => match snd x with SStart _ asks => forallb snd asks | _ => false end) f.
+Definition leaders_of (w : world) : list node := List.filter iam_leader (nodes_of w).
+Definition same_members_everywhere (w : world) : bool :=
+  forallb (fun n => forallb (fun m => subset_b (member_ids (nd_view n)) (member_ids (nd_view m))) (nodes_of w)) (nodes_of w).
